@@ -109,7 +109,8 @@ def c10(ctx, H):
             ctx.violation(sig, f'{rp["site"]}: {r}', replay=rp)
     elif rp['kind'] == 'msg':
         bad, closed = H.run_msg_case(rp['message'], H.FIELDS[rp['message']],
-                                     rp['field'], rp['mutation'])
+                                     rp['field'], rp['mutation'],
+                                     pipelined=rp.get('pipelined', False))
         print('closed:', closed, 'bad:', bad)
         ctx.count(('replay', 'msg'))
         if bad:
